@@ -168,6 +168,12 @@ func TestC08Rapid(t *testing.T) {
 		depth = 7
 	}
 	var last *Replay
+	// rapid.Check ends the test goroutine on failure (FailNow): report from a deferred call
+	defer func() {
+		if last != nil {
+			violation(t, last)
+		}
+	}()
 	k := 0
 	rapid.Check(t, func(rt *rapid.T) {
 		tm := genTerm(termOpts{maxDepth: depth}).Draw(rt, "term")
@@ -184,9 +190,6 @@ func TestC08Rapid(t *testing.T) {
 			rt.Fatalf("%s", rep.What)
 		}
 	})
-	if last != nil {
-		violation(t, last)
-	}
 }
 
 // ---- algebraic laws, checked on the implementation alone (metamorphic) ------------------------
@@ -219,6 +222,12 @@ func TestC08Laws(t *testing.T) {
 	c.rule("algebraic laws on the implementation alone: Combine associativity, Normal unit, Break/Continue/Return " +
 		"left zero, While=For(c,nil), Loop=For(nil,nil), Delay of an effect-free thunk is the identity; each inside 5 contexts")
 	var last *Replay
+	// rapid.Check ends the test goroutine on failure (FailNow): report from a deferred call
+	defer func() {
+		if last != nil {
+			violation(t, last)
+		}
+	}()
 	ctxs := contexts()
 	rapid.Check(t, func(rt *rapid.T) {
 		o := termOpts{maxDepth: 3}
@@ -267,7 +276,4 @@ func TestC08Laws(t *testing.T) {
 			}
 		}
 	})
-	if last != nil {
-		violation(t, last)
-	}
 }
